@@ -89,7 +89,7 @@ class Gen:
             return bip("print_list", r.choice(GROUND_LISTS))
         if x < 0.92 and self.cut and not inside_not: return CUT
         if x < 0.95: return FAIL
-        if self.neg and not inside_not:
+        if self.neg and (not inside_not or r.random() < 0.5):      # nested not(not(..)) too
             return NOT(self.goal(vs, preds, 1, inside_not=True))
         return C("n", self.val(vs, 0.8))
 
